@@ -57,6 +57,9 @@ func c16Gen(seed int64, idx int) c16Pkg {
 		fmt.Sprintf("func (a *A) Inc() int {\n\ta.N += %d\n\treturn a.N\n}\n", rng.Range(1, 5)),
 		"func (b *B) Name() string {\n\tif b.A != nil {\n\t\treturn b.S + fmt.Sprint(b.A.N, k1)\n\t}\n\treturn b.S\n}\n",
 		"func mk(n int) *A {\n\ta := &A{N: n, Tag: strings.Repeat(\"t\", n%3)}\n\ta.B = &B{S: \"b\", A: a}\n\treturn a\n}\n",
+		// functions sharing their names with a field and with a method (separate name spaces)
+		"func Tag(a *A) string {\n\treturn a.Tag + \"!\"\n}\n",
+		"func Name(b *B) string {\n\treturn \"<\" + b.Name() + \">\"\n}\n",
 		"func even(n int) bool {\n\tif n == 0 {\n\t\treturn true\n\t}\n\treturn odd(n - 1)\n}\n",
 		"func odd(n int) bool {\n\tif n == 0 {\n\t\treturn false\n\t}\n\treturn even(n - 1)\n}\n",
 	)
@@ -71,7 +74,7 @@ func c16Gen(seed int64, idx int) c16Pkg {
 		case 0:
 			body.WriteString("\tif even(x & 7) {\n\t\tx++\n\t}\n")
 		case 1:
-			body.WriteString("\ta := mk(x & 3)\n\tx += a.Inc() + len(a.B.Name())\n")
+			body.WriteString("\ta := mk(x & 3)\n\tx += a.Inc() + len(a.B.Name()) + len(Tag(a)) + len(Name(a.B))\n")
 		case 2:
 			body.WriteString("\tx += k1 * g0\n")
 		default:
@@ -80,7 +83,7 @@ func c16Gen(seed int64, idx int) c16Pkg {
 		body.WriteString("\treturn x\n}\n")
 		p.Hoist = append(p.Hoist, body.String())
 	}
-	p.Hoist = append(p.Hoist, fmt.Sprintf("func main() {\n\tfmt.Println(\"main\", g0, g1, g2, g3, f%d(g1), mk(k2).B.Name())\n\tfmt.Println(odd(k2), even(k1), gs)\n}\n", nf-1))
+	p.Hoist = append(p.Hoist, fmt.Sprintf("func main() {\n\tfmt.Println(\"main\", g0, g1, g2, g3, f%d(g1), mk(k2).B.Name())\n\tfmt.Println(odd(k2), even(k1), gs, Tag(mk(k1)), Name(mk(k2).B), S)\n}\n", nf-1))
 	// the spine keeps its order: later initialisers depend on earlier ones
 	p.Spine = []string{
 		fmt.Sprintf("const k1 = %d\n", rng.Range(1, 9)),
@@ -90,6 +93,7 @@ func c16Gen(seed int64, idx int) c16Pkg {
 		"var g2 = mk(g1 & 7).Inc() + k2\n",
 		fmt.Sprintf("var g3 = fmt.Sprint(even(g2&7), f%d(g2))\n", rng.Intn(nf)),
 		"var gs []string\n",
+		"var S = Tag(mk(k2)) + fmt.Sprint(g0)\n", // a variable sharing its name with a field
 		"func init() {\n\tfmt.Println(\"init\", g0, g1, g2, g3)\n\tg0 += 10\n\tgs = append(gs, \"i1\")\n}\n",
 	}
 	if rng.Bool() {
@@ -156,7 +160,7 @@ func c16RunGoat(files map[string]string, dir string) core.Outcome {
 }
 
 func runC16(r *core.Run) {
-	r.SetRule("generated packages: two struct types referring to each other, methods (also declared before their type), a constructor, a mutually recursive pair, 2-6 functions calling earlier ones, main; and a fixed-order spine of constants, variable initialisers that call those functions, and one or two init functions. Each package is laid out in many variants: hoistable declarations permuted, merged with the spine at random positions (spine order kept), cut into 1-3 files with sort-order trap names, imports repeated per file. Every variant must print what the canonical single-file layout prints, and the canonical layout what Go prints. non-trivial = canonical layout accepted by Go; distinct by file tree")
+	r.SetRule("generated packages: two struct types referring to each other, methods (also declared before their type), a constructor, functions and a variable sharing their names with a field or a method, a mutually recursive pair, 2-6 functions calling earlier ones, main; and a fixed-order spine of constants, variable initialisers that call those functions, and one or two init functions. Each package is laid out in many variants: hoistable declarations permuted, merged with the spine at random positions (spine order kept), cut into 1-3 files with sort-order trap names, imports repeated per file. Every variant must print what the canonical single-file layout prints, and the canonical layout what Go prints. non-trivial = canonical layout accepted by Go; distinct by file tree")
 	r.Assume("metamorphic relation plus the Go toolchain (GOARCH=386) on the canonical layout; named non-struct types stay in the spine (the property hoists functions, methods and struct types)")
 	n := r.N(120, 3000)
 	variants := r.N(40, 150)
